@@ -807,9 +807,13 @@ impl World {
         let res: Result<String, String> = match catch_unwind(AssertUnwindSafe(|| -> Result<String, String> {
             match kind {
                 "setup" => {
-                    let r = self.node.setup_channel(self.channel_id.clone(), None, self.setup.clone(), &DerivationPath::master());
+                    let perm = ChannelId::new(&[0x77u8; 32]);
+                    let r = self.node.setup_channel(self.channel_id.clone(), Some(perm.clone()), self.setup.clone(), &DerivationPath::master());
                     match r {
                         Ok(_) => {
+                            // from now on the direct entry points look the channel up by its permanent id, the
+                            // handler arms by the initial id (peer id + dbid); the persister keys by the initial id
+                            self.channel_id = perm;
                             let nc = self.node_ctx();
                             self.cp_keys = Some(make_test_counterparty_keys(&nc, &self.channel_id, CHANNEL_VALUE));
                             // outgoing HTLCs (received by the counterparty) need an approved payment
@@ -939,6 +943,19 @@ impl World {
                     let script = { use lightning_signer::wallet::Wallet; self.node.get_native_address(&path).unwrap().script_pubkey() };
                     let cps = lightning_signer::bitcoin::ScriptBuf::from_hex("0014be56df7de366ad8ee9ccdad54e9a9993e99ef565").unwrap();
                     let (th, tc, cpscript) = if good { (2_998_000u64, 0u64, None) } else { (2_598_000u64, 400_000u64, Some(cps)) };
+                    if num(2) == 1 {
+                        // phase 1: the closing transaction itself plus one wallet path per output
+                        use lightning_signer::lightning::ln::chan_utils::ClosingTransaction;
+                        let ctx = ClosingTransaction::new(th, tc, script.clone(), cpscript.clone().unwrap_or_default(), self.setup.funding_outpoint);
+                        let tx = ctx.trust().built_transaction().clone();
+                        let opaths: Vec<DerivationPath> =
+                            tx.output.iter().map(|o| if o.script_pubkey == script { path.clone() } else { DerivationPath::master() }).collect();
+                        return self
+                            .node
+                            .with_channel(&self.channel_id, |chan| chan.sign_mutual_close_tx(&tx, &opaths))
+                            .map(|_| "ok".to_string())
+                            .map_err(|e| class_of(&e));
+                    }
                     self.node
                         .with_channel(&self.channel_id, |chan| chan.sign_mutual_close_tx_phase2(th, tc, &Some(script.clone()), &cpscript, &path))
                         .map(|_| "ok".to_string())
